@@ -12,7 +12,7 @@ Init == i = 0
 Next == /\ i < Len(Trace)
         /\ i' = i + 1
         /\ LET t == Trace[i'] IN
-             /\ Accept(t) \/ PrintT(<<"@BAD", ToJson([line |-> i', want |-> Permits(t.r, t.admin, t.p)])>>)
+             /\ IF Accept(t) THEN TRUE ELSE PrintT(<<"@BAD", ToJson([line |-> i', want |-> Permits(t.r, t.admin, t.p)])>>)
              /\ Compared(t) => PrintT(<<"@CMP", ToJson(i')>>)
 AllConsumed == TLCGet("stats").diameter = Len(Trace) + 1
 ================================================================================
